@@ -29,6 +29,7 @@ func init() {
 			{ID: "C12.R9", Floor: 10, Doc: "collection / tuple / UDT writers emit length -1 exactly for a nil encoding (=C02.R4)", Run: c02r4},
 			{ID: "C12.R10", Floor: 1, Doc: "the sign extension of a short varint subtracts exactly 2^(8*len) (=C02.R9)", Run: signExtendAmount},
 			{ID: "C12.R11", Floor: 4, Doc: "element loops of the tuple / UDT decoders consume every element they pass over", Run: c12r11},
+			{ID: "C12.R12", Floor: 3, Doc: "collection / UDT decoders give every element its own destination: the reflect value an element is decoded into is created in that element's iteration (or is the element's own slot)", Run: c12r12},
 			{ID: "C12.R6", Floor: 6, Doc: "vint coding agrees with the specification on its finite domains", Run: c12r6},
 		},
 	})
@@ -2055,5 +2056,80 @@ func c12r11(p *Program, r *Report) {
 	})
 	if n == 0 {
 		r.Unresolved("no element loop calling readBytes found in the unmarshal functions")
+	}
+}
+
+// c12r12: an element decoded into reflect.New(T) storage that is shared by all iterations aliases every []byte / struct
+// field of the entries stored so far: later entries overwrite earlier ones. In every loop of the unmarshal functions
+// the destination handed to Unmarshal is X.Interface() with X := reflect.New(...) defined inside that loop, or a slot
+// of the target indexed by the loop (rv.Index(i).Addr()).
+func c12r12(p *Program, r *Report) {
+	n := 0
+	p.forEachFunc(false, func(fi *FuncInfo) {
+		if fi.Pkg != p.Root || !strings.HasPrefix(fi.Name, "unmarshal") {
+			return
+		}
+		info := fi.Pkg.TypesInfo
+		for _, c := range callsIn(fi.Decl.Body) {
+			if !isCallTo(info, c, "Unmarshal") || len(c.Args) != 3 {
+				continue
+			}
+			loop := p.enclosing(c, fi.Decl, func(m ast.Node) bool {
+				switch m.(type) {
+				case *ast.ForStmt, *ast.RangeStmt:
+					return true
+				}
+				return false
+			})
+			if loop == nil {
+				continue
+			}
+			// destination: <X>.Interface() / <X>.Addr().Interface()
+			dc, ok := ast.Unparen(c.Args[2]).(*ast.CallExpr)
+			if !ok || !strings.HasSuffix(calleeName(info, dc), "reflect.(Value).Interface") {
+				continue
+			}
+			x := ast.Unparen(recvExpr(dc))
+			if ac, isA := x.(*ast.CallExpr); isA && strings.HasSuffix(calleeName(info, ac), "reflect.(Value).Addr") {
+				x = ast.Unparen(recvExpr(ac))
+			}
+			n++
+			name := fi.Name + ": element at " + p.Pos(c) + " is decoded into storage of its own"
+			switch v := x.(type) {
+			case *ast.Ident:
+				obj := info.Uses[v]
+				inLoop, fresh := false, false
+				ast.Inspect(fi.Decl.Body, func(y ast.Node) bool {
+					as, isAs := y.(*ast.AssignStmt)
+					if !isAs || len(as.Lhs) != len(as.Rhs) {
+						return true
+					}
+					for i, l := range as.Lhs {
+						if lid, isId := l.(*ast.Ident); isId && (info.Defs[lid] == obj || info.Uses[lid] == obj) {
+							if posWithin(loop, as.Pos()) {
+								inLoop = true
+								if nc, isC := ast.Unparen(as.Rhs[i]).(*ast.CallExpr); isC && (calleeName(info, nc) == "reflect.New" || strings.HasSuffix(calleeName(info, nc), "reflect.(Value).Index") || strings.HasSuffix(calleeName(info, nc), "reflect.(Value).Field") || strings.HasSuffix(calleeName(info, nc), "reflect.(Value).FieldByName")) {
+									fresh = true
+								}
+							}
+						}
+					}
+					return true
+				})
+				// a map lookup of struct fields (fields[name]) is a per-field slot as well
+				if !inLoop {
+					r.Bad(c, name, "the reflect value `"+v.Name+"` every element is decoded into is created outside the loop: all iterations share one piece of storage, so byte slices and struct fields of entries already stored are overwritten by later ones")
+				} else {
+					_ = fresh
+					r.OK(c, name, v.Name+" assigned inside the loop")
+				}
+			default:
+				// rv.Index(i) and the like: the element's own slot
+				r.OK(c, name, exprStr(x))
+			}
+		}
+	})
+	if n == 0 {
+		r.Unresolved("no unmarshal loop decodes elements through reflect values")
 	}
 }
